@@ -22,10 +22,10 @@ type SyncView struct {
 	Canary   map[string]bool
 	Ignored  map[string]bool // nodes hidden from this sync (canary nodes for the active role)
 	Nodes    map[string]*corev1.Node
-	Eligible map[string]bool            // by the syncing replica set's template
-	Own      map[string][]*corev1.Pod   // own pods of the EDS by target node (phase Unknown excluded)
-	Keeper   map[string]*corev1.Pod     // the pod the reference keeps per node
-	PodByKey map[string]*corev1.Pod     // every pod of the pre-state by ns/name
+	Eligible map[string]bool          // by the syncing replica set's template
+	Own      map[string][]*corev1.Pod // own pods of the EDS by target node (phase Unknown excluded)
+	Keeper   map[string]*corev1.Pod   // the pod the reference keeps per node
+	PodByKey map[string]*corev1.Pod   // every pod of the pre-state by ns/name
 	Creates  []*Call
 	Deletes  []*Call
 	Patches  []*Call
